@@ -50,6 +50,8 @@ struct Shared {
     arrived_hi: Vec<u64>,
     bad_forwarded: Vec<String>,
     next_serial: u32,
+    /// times an upstream cut a connection inside the second of two pipelined replies
+    glued: u32,
 }
 
 type Sh = Arc<Mutex<Shared>>;
@@ -267,16 +269,38 @@ fn hostile_reply(seed: u64, ans: &AnsSpec, q: &(Name, u16, u16), id: u16) -> Vec
     out
 }
 
-async fn upstream_tcp_conn(k: Arc<Kernel>, plan: Arc<PlanB>, sh: Sh, ui: usize, mut s: ActorStream, t0: Instant) {
+/// The next length-prefixed message of the stream; None at end of stream, on an error, or when
+/// `wait` runs out first (nothing read so far is lost then: it stays in `inbuf`).
+async fn next_frame(s: &mut ActorStream, inbuf: &mut Vec<u8>, wait: Option<Duration>) -> Option<Vec<u8>> {
+    let deadline = wait.map(|w| Instant::now() + w);
     loop {
-        let mut lb = [0u8; 2];
-        if s.read_exact(&mut lb).await.is_err() {
-            return;
+        if inbuf.len() >= 2 {
+            let l = u16::from_be_bytes([inbuf[0], inbuf[1]]) as usize;
+            if inbuf.len() >= 2 + l {
+                let m = inbuf[2..2 + l].to_vec();
+                inbuf.drain(..2 + l);
+                return Some(m);
+            }
         }
-        let mut buf = vec![0u8; u16::from_be_bytes(lb) as usize];
-        if s.read_exact(&mut buf).await.is_err() {
-            return;
+        let mut tmp = [0u8; 4096];
+        let n = match deadline {
+            None => s.read(&mut tmp).await,
+            Some(d) => match tokio::time::timeout_at(d.into(), s.read(&mut tmp)).await {
+                Ok(r) => r,
+                Err(_) => return None,
+            },
+        };
+        match n {
+            Ok(0) | Err(_) => return None,
+            Ok(n) => inbuf.extend_from_slice(&tmp[..n]),
         }
+    }
+}
+
+async fn upstream_tcp_conn(k: Arc<Kernel>, plan: Arc<PlanB>, sh: Sh, ui: usize, mut s: ActorStream, t0: Instant) {
+    let mut inbuf: Vec<u8> = vec![];
+    loop {
+        let Some(buf) = next_frame(&mut s, &mut inbuf, None).await else { return };
         let now_ms = Instant::now().saturating_duration_since(t0).as_millis() as u64;
         let d = match decode(&buf) {
             Ok(d) => d,
@@ -344,6 +368,46 @@ async fn upstream_tcp_conn(k: Arc<Kernel>, plan: Arc<PlanB>, sh: Sh, ui: usize, 
             let mut of = (ob.len() as u16).to_be_bytes().to_vec();
             of.extend(ob);
             let _ = s.write_all(&of).await;
+        }
+        if let UpTcp::GlueNext { keep_permille, reset } = mode {
+            /* wait for a second query on this connection; answer the first in full and the
+             * second only in part, in one write, then hang up */
+            if let Some(buf2) = next_frame(&mut s, &mut inbuf, Some(Duration::from_millis(40))).await {
+                let now_ms = Instant::now().saturating_duration_since(t0).as_millis() as u64;
+                let second = decode(&buf2).ok().and_then(|d2| {
+                    let (qn2, qt2, qc2) = d2.msg.question.first().cloned()?;
+                    let qi2 = spec_for(&plan, &qn2, qt2, qc2, now_ms)?;
+                    Some((d2.msg.id, qn2, qt2, qc2, qi2))
+                });
+                if let Some((id2, qn2, qt2, qc2, qi2)) = second {
+                    let handed = k.now_ns();
+                    let f2 = {
+                        let mut g = sh.lock().unwrap();
+                        g.contact.entry(qn2.lower().to_text()).or_default().insert(ui);
+                        g.seen[qi2].push((ui, handed, true));
+                        g.next_serial += 1;
+                        let serial2 = g.next_serial;
+                        let msg2 = build_answer(&plan.queries[qi2].ans, &(qn2, qt2, qc2), serial2, id2);
+                        let b2 = encode(&msg2, plan.queries[qi2].ans.compress);
+                        let mut f2 = (b2.len().min(65535) as u16).to_be_bytes().to_vec();
+                        f2.extend_from_slice(&b2[..b2.len().min(65535)]);
+                        g.replies.push(UpReply { serial, qidx: qi, upstream: ui, tcp: true, msg: msg.clone(), handed_ns: handed, handed_hi_ns: handed + 25_000_000, as_sent_is_msg: true });
+                        g.handed_at[qi].push(handed);
+                        g.glued += 1;
+                        f2
+                    };
+                    let keep = ((f2.len() as u64 * keep_permille as u64 / 1000) as usize).clamp(1, f2.len() - 1);
+                    let mut both = frame.clone();
+                    both.extend_from_slice(&f2[..keep]);
+                    let _ = s.write_all(&both).await;
+                    if reset {
+                        tokio::time::sleep(Duration::from_millis(30)).await;
+                        s.reset();
+                    }
+                    return;
+                }
+                /* not a query of the plan: answer the first one as usual */
+            }
         }
         let handed = k.now_ns();
         let r = if mode == UpTcp::OneByte && frame.len() < 3000 {
@@ -809,11 +873,16 @@ fn evaluate(plan: &PlanB, kernel: &Arc<Kernel>, sh: &Sh, sent_at_ns: &[u64], _en
                 UpTcp::UnknownIdFirst => Some("upstream_tcp.unknown_id_reply"),
                 UpTcp::Twice => Some("upstream_tcp.duplicate_reply"),
                 UpTcp::Slow { .. } => Some("upstream_tcp.slow"),
+                UpTcp::GlueNext { .. } => None, /* counted when it happens: shared.glued */
             };
             if let Some(n) = t {
                 *res.faults.entry(n.into()).or_insert(0) += 1;
             }
         }
+    }
+    if g.glued > 0 {
+        *res.faults.entry("upstream_tcp.cut_inside_second_pipelined_reply".into()).or_insert(0) += g.glued as u64;
+        res.probe("C07.upstream_connection_died_inside_the_second_of_two_pipelined_replies");
     }
     for m in &plan.upstream_tcp {
         if m != "accept" {
@@ -979,6 +1048,12 @@ fn evaluate(plan: &PlanB, kernel: &Arc<Kernel>, sh: &Sh, sent_at_ns: &[u64], _en
                 res.probe("C07.response_sent_from_ipv4_only_listener");
             }
 
+            // ---- C14: what erbium encodes, erbium's own decoder reads back
+            if let Err(e) = erbium::dns::parse::PktParser::new(bytes).get_dns() {
+                if decode(bytes).is_ok() {
+                    res.violate("C14", "C14.own_decoder_rejects_own_encoding", format!("response to {} ({} octets) is well-formed but erbium's decoder refuses it: {} -- {}", q.qname.to_text(), bytes.len(), e, hex(&bytes[..bytes.len().min(400)])), qi);
+                }
+            }
             // ---- C04: well-formed, within the transport limit
             let d = match decode(bytes) {
                 Ok(d) => d,
@@ -1253,6 +1328,32 @@ fn evaluate(plan: &PlanB, kernel: &Arc<Kernel>, sh: &Sh, sent_at_ns: &[u64], _en
                         }
                         if d.pointers.len() > 20 {
                             res.probe("C14.many_compression_pointers");
+                        }
+                        /* how many pointers in a row does the deepest name of the response take */
+                        let by_at: HashMap<usize, usize> = d.pointers.iter().map(|p| (p.at, p.target)).collect();
+                        let mut deepest = 0usize;
+                        for p in &d.pointers {
+                            let (mut hops, mut pos) = (1usize, p.target);
+                            while hops < 200 {
+                                /* walk the labels at pos up to the root or the next pointer */
+                                while pos < bytes.len() && bytes[pos] != 0 && bytes[pos] & 0xc0 == 0 {
+                                    pos += 1 + bytes[pos] as usize;
+                                }
+                                match by_at.get(&pos) {
+                                    Some(t) => {
+                                        hops += 1;
+                                        pos = *t;
+                                    }
+                                    None => break,
+                                }
+                            }
+                            deepest = deepest.max(hops);
+                        }
+                        if deepest > 10 {
+                            res.probe("C14.name_expanded_through_more_than_10_pointers_in_a_row");
+                        }
+                        if deepest > 60 {
+                            res.probe("C14.name_expanded_through_more_than_60_pointers_in_a_row");
                         }
                     }
                 }
